@@ -175,6 +175,8 @@ class Cache:
             res.name_to_uuid = self.name_to_uuid | right_cache.name_to_uuid
             res.uuid_to_name = {uid: name for name, uid in res.name_to_uuid.items()}
 
+            # in an inner join the filters of the right table end up in WHERE, too
+            res.is_filtered = self.is_filtered or (right_cache.is_filtered and node.how == "inner")
             res.derived_from = self.derived_from | right_cache.derived_from
             res.limit = None
             res.group_by = set()
